@@ -485,3 +485,31 @@ Arguments Request {P}. Arguments Resend {P}. Arguments Expire {P}. Arguments Ser
 Arguments Inject {P}. Arguments RecvBegin {P}. Arguments RecvEnd {P}. Arguments RecvErr {P}.
 Arguments AnnouncePiece {P}. Arguments Drop {P}.
 Arguments mkcfg {P}. Arguments mkpobs {P}.
+
+(* ---- concrete swarms: non-vacuity examples and the refutation witness of Properties/C19.v *)
+Local Open Scope N_scope.
+(* payloads are numbers, all of length 1; the checksum is injective *)
+Definition ex_plen (b : nat) : N := 1.
+Definition ex_sum (b : nat) : N := N.of_nat b.
+(* three pieces; pipeline 1, no endgame, two connections per peer *)
+Definition ex_cfg : cfg nat := mkcfg [10; 11; 12]%nat [10; 11; 12] 1 1 1 true 2.
+(* 0 = seeder, 1 and 2 = agents (2 already has piece 1), 3 = corrupting peer *)
+Definition ex_peers : list (kind * bool * list nat) :=
+  [(Honest, false, [0; 1; 2]); (Honest, false, []); (Honest, false, [1]); (Corrupting, false, [])]%nat.
+(* agent 1 connects to the corrupting peer, asks it for piece 0 and gets a bad payload (request
+   marked invalid, piece Empty again), asks again (pending); agent 2 fetches piece 0 from the
+   seeder; agent 1 spends its second connection on agent 2 and asks it for piece 1; agent 2 departs *)
+Definition ex_trace : list (label nat) :=
+  [Join 0; Join 1; Join 3; Connect 1 3 [0; 1; 2]; Request 1 3 [0] 1; Inject 3 (MPay 3 1 0 99);
+   RecvBegin 1 3 0; RecvEnd 1 0; Request 1 3 [0] 1;
+   Join 2; Connect 2 0 []; Request 2 0 [0] 1; Serve 0 2 0; RecvBegin 2 0 0; RecvEnd 2 0;
+   Connect 1 2 []; Request 1 2 [1] 1; Depart 2]%nat.
+Definition ex_state : state nat := run nat ex_plen ex_sum ex_cfg (init nat ex_cfg ex_peers) ex_trace.
+
+(* the checksum collides: everything sums to 0 *)
+Definition col_plen (b : nat) : N := 1.
+Definition col_sum (b : nat) : N := 0.
+Definition col_cfg : cfg nat := mkcfg [0]%nat [0] 3 5 3 false 10.
+Definition col_peers : list (kind * bool * list nat) := [(Honest, false, []); (Corrupting, false, [])].
+Definition col_trace : list (label nat) :=
+  [Join 0; Join 1; Connect 0 1 [0]; Request 0 1 [0] 1; Inject 1 (MPay 1 0 0 7); RecvBegin 0 1 0; RecvEnd 0 0]%nat.
